@@ -15,12 +15,13 @@ static OPN2_Instrument mk_ins(int alg, int level) {
     for(int op = 0; op < 4; op++) { i.operators[op].dtfm_30 = 1; i.operators[op].level_40 = (OPN2_UInt8)level; i.operators[op].rsatk_50 = 0x1F; i.operators[op].susrel_80 = 0x0F; }
     i.delay_on_ms = 40000; i.delay_off_ms = 100; return i;
 }
+static int g_vel_offset = 0;   // midi_velocity_offset of the test instrument (0 except in the velocity_offsets family)
 static bool setup(pl::Instance &I, int model, int alg, int level, int scale_mod, int fullrange) {
     I.create(44100); OPN2_MIDIPlayer *d = I.dev; opn2_setNumChips(d, 1);
     if(opn2_openBankData(d, g_base.data(), (long)g_base.size()) != 0) return false;
     opn2_setVolumeRangeModel(d, model); opn2_setScaleModulators(d, scale_mod); opn2_setFullRangeBrightness(d, fullrange);
     OPN2_BankId mid = {0, 0, 0}; OPN2_Bank mb; if(opn2_getBank(d, &mid, OPNMIDI_Bank_Create, &mb)) return false;
-    OPN2_Instrument ins = mk_ins(alg, level); opn2_setInstrument(d, &mb, 0, &ins);
+    OPN2_Instrument ins = mk_ins(alg, level); ins.midi_velocity_offset = (OPN2_SInt8)g_vel_offset; opn2_setInstrument(d, &mb, 0, &ins);
     I.tap.logging = false;
     return true;
 }
@@ -87,6 +88,19 @@ int main(int argc, char **argv) {
                     prev[op] = tl[op]; } } }
         if(!range_ok(I, o, ctx)) return;
         o.units = 16 * 128; if(i % 997 == 0) o.sample = ctx; o.nontrivial = true; };
+      fams.push_back(F); }
+    { // instruments with a velocity offset: the effective velocity is clamped to 1..127, so loudness stays monotone in the velocity sent
+      static const int OFFS[] = {-128, -100, -24, -1, 1, 24, 100, 127};
+      en::Family F; F.name = "velocity_offsets"; F.count = 5 * 8 * 3; F.chunk = 1; F.budget_s = 60; F.describe = "5 volume models x instrument velocity offset {-128,-100,-24,-1,+1,+24,+100,+127} x algorithm {7,4,0}: velocity 1..127 x channel volume {1,64,127}: carrier attenuation never rises with the velocity sent, range 0..127";
+      F.run = [](uint64_t i, en::CaseOut &o) { int model = 1 + (int)(i % 5), off = OFFS[(i / 5) % 8]; static const int AL[] = {7, 4, 0}; int alg = AL[i / 40];
+        std::string ctx = std::string(" [model ") + MODEL[model] + ", velocity offset " + std::to_string(off) + ", algorithm " + std::to_string(alg) + "]"; char b[300];
+        g_vel_offset = off; pl::Instance I; bool ok = setup(I, model, alg, 20, 0, 0); g_vel_offset = 0; if(!ok) { o.fail("C11/harness", "setup"); return; }
+        for(int vol : {1, 64, 127}) { opn2_rt_controllerChange(I.dev, 0, 7, (OPN2_UInt8)vol); uint8_t prev[4] = {127, 127, 127, 127};
+            for(int vel = 1; vel < 128; vel++) { opn2_rt_noteOn(I.dev, 0, 60, (OPN2_UInt8)vel); uint8_t tl[4]; read_tl(I, tl); opn2_rt_noteOff(I.dev, 0, 60);
+                for(int op = 0; op < 4; op++) if(CARRIER[alg][op] && vel > 1 && tl[op] > prev[op]) { snprintf(b, sizeof b, "carrier slot %d: attenuation rose from %u to %u when velocity went %d -> %d (volume %d)", op, prev[op], tl[op], vel - 1, vel, vol); o.fail("C11/not-monotone/velocity", b + ctx); return; }
+                memcpy(prev, tl, 4); } }
+        if(!range_ok(I, o, ctx)) return;
+        o.units = 3 * 127; if(i % 11 == 0) o.sample = ctx; o.nontrivial = true; };
       fams.push_back(F); }
     { // controls changed while the note sounds: the level written by the refresh must be the level a fresh note gets under the same settings
       static const int VELS_Q[] = {1, 64, 127}, VELS_T[] = {1, 16, 32, 64, 100, 126, 127}; static const int ALGS_Q[] = {7, 4, 0};
